@@ -47,9 +47,11 @@ type Solver struct {
 	dead      bool
 	nq        int
 
-	Queries int
-	TimeNs  int64
-	LogFile *os.File
+	Queries    int
+	Retries    int
+	TimeNs     int64
+	popPending bool
+	LogFile    *os.File
 }
 
 var solverSpawned int64
@@ -112,6 +114,8 @@ func (s *Solver) start() {
 	}()
 	if s.isCVC5() {
 		io.WriteString(s.in, "(set-logic ALL)\n")
+	} else {
+		fmt.Fprintf(s.in, "(set-option :produce-models true)\n(set-option :timeout %d)\n", s.timeoutMs)
 	}
 }
 
@@ -133,17 +137,29 @@ var valRe = regexp.MustCompile(`\(\s*\|([^|]+)\|\s+(#x[0-9a-fA-F]+|#b[01]+|true|
 func (s *Solver) Check(body string, vars []*Term) (SatResult, Model, string) {
 	t0 := time.Now()
 	defer func() { s.TimeNs += time.Since(t0).Nanoseconds(); s.Queries++ }()
+	res, m, note := s.check1(body, vars, false)
+	if res == Unknown && !s.isCVC5() {
+		// z3's incremental core gave up: retry once as a fresh one-shot problem (tactic pipeline)
+		s.Retries++
+		res, m, note = s.check1(body, vars, true)
+	}
+	return res, m, note
+}
+
+func (s *Solver) check1(body string, vars []*Term, oneShot bool) (SatResult, Model, string) {
 	if s.dead {
 		s.start()
 	}
 	s.nq++
 	marker := fmt.Sprintf("<<done-%d>>", s.nq)
 	var sb strings.Builder
-	if s.isCVC5() {
-		sb.WriteString("(push 1)\n")
-	} else {
+	s.popPending = false
+	if oneShot {
 		sb.WriteString("(reset)\n(set-option :produce-models true)\n")
 		fmt.Fprintf(&sb, "(set-option :timeout %d)\n", s.timeoutMs)
+	} else {
+		sb.WriteString("(push 1)\n")
+		s.popPending = true
 	}
 	sb.WriteString(body)
 	sb.WriteString("(check-sat)\n")
@@ -212,9 +228,10 @@ func (s *Solver) Check(body string, vars []*Term) (SatResult, Model, string) {
 }
 
 func (s *Solver) finish() {
-	if s.isCVC5() && !s.dead {
+	if s.popPending && !s.dead {
 		io.WriteString(s.in, "(pop 1)\n")
 	}
+	s.popPending = false
 }
 
 func parseLit(l string) uint64 {
